@@ -340,7 +340,7 @@ pub fn drive(args: &[String]) {
             // "preserves the version word": whatever the word holds (the loader normalises it, so it is set on the module)
             if rng.chance(1, 3) { if let Some(h) = m.header.as_mut() { h.version = *rng.pick(&[0x0001_0301u32, 0x0101_0300, 0xffff_ffff, 0, 0x0000_00ff]); } }
             // the id bound of the header is not part of the subset's definition (Builder::module_ref() leaves it 0)
-            if rng.chance(1, 3) { if let Some(h) = m.header.as_mut() { h.bound = *rng.pick(&[0u32, 1, 5, 0xffff_ffff]); } }
+            if rng.chance(1, 3) { if let Some(h) = m.header.as_mut() { h.bound = *rng.pick(&[0u32, 1, 5, 70000]); } }
             out.ev(lift_event(&m, "subset", None));
         }
     }
